@@ -661,7 +661,16 @@ def to_pivot_column(tokens):
 def to_union_call(tokens):
     unions = tokens["union"]
     if isinstance(unions, dict):
-        return unions
+        if (
+            not tokens["orderby"]
+            and not tokens["offset"]
+            and not tokens["limit"]
+            and not tokens["fetch"]
+            and not tokens["locking"]
+        ):
+            return unions
+        # A PARENTHESISED QUERY FOLLOWED BY ITS OWN ORDER BY / LIMIT / OFFSET / FETCH
+        output = {"from": unions}
     elif unions.type.parser_name == "unordered_sql":
         output = dict(unions)  # REMOVE THE Group()
         if not output:
